@@ -94,6 +94,8 @@ type w4MapModel struct {
 	renamesSinceRestart int
 	resetsSinceRestart  int
 	allowResets         bool
+	focusKey            int
+	focus               bool // flood-focused run: one metric, mostly creations
 	dirtyByReset        map[string]bool // metric -> budget was reset and no mapping created since
 }
 
@@ -107,6 +109,11 @@ var w4Metrics = []string{"mm0", "mm1", "mm2"}
 
 func (m *w4MapModel) gen(c *verifsim.Choices) w4MapIn {
 	key := func() string { return fmt.Sprintf("k%d", c.Intn(12, "key")) }
+	if m.focus && c.Intn(8, "ff_op") != 7 {
+		// fresh keys so that every call is a creation attempt
+		m.focusKey++
+		return w4MapIn{Kind: "getorcreate", Metric: w4Metrics[0], Key: fmt.Sprintf("f%d", m.focusKey)}
+	}
 	switch k := c.Intn(12, "mapop"); {
 	case k <= 5:
 		return w4MapIn{Kind: "getorcreate", Metric: w4Metrics[c.Intn(len(w4Metrics), "metric")], Key: key()}
@@ -311,15 +318,22 @@ func (w *w4World) checkMaps() {
 					if ms.hasReset && ms.resetValue > base {
 						base = ms.resetValue
 					}
+					// with a clock that also steps back, "elapsed steps" of a window is measured up to the
+					// latest instant seen inside it (a bucket legitimately keeps the bonus it earned while
+					// the clock was ahead)
+					hi := op.at
 					for i := n - 1; i >= 0 && ms.creations[i].limited; i-- {
+						if ms.creations[i].at > hi {
+							hi = ms.creations[i].at
+						}
 						cnt := int64(n - i)
-						allowed := base + m.opt.BudgetBonus*w4Steps(ms.creations[i].at, op.at, m.opt.StepSec)
+						allowed := base + m.opt.BudgetBonus*w4Steps(ms.creations[i].at, hi, m.opt.StepSec)
 						if cnt > allowed {
 							sig := "steady"
 							if m.clockWentBack {
 								sig = "clock-went-back"
 							}
-							r.Fail("C19", "flood_limit_exceeded", sig, "metric %q created %d mappings between t=%d and t=%d; budget %d + bonus %d x %d elapsed steps allows %d", in.Metric, cnt, ms.creations[i].at, op.at, base, m.opt.BudgetBonus, w4Steps(ms.creations[i].at, op.at, m.opt.StepSec), allowed)
+							r.Fail("C19", "flood_limit_exceeded", sig, "metric %q created %d mappings between t=%d and t=%d; budget %d + bonus %d x %d elapsed steps allows %d", in.Metric, cnt, ms.creations[i].at, op.at, base, m.opt.BudgetBonus, w4Steps(ms.creations[i].at, hi, m.opt.StepSec), allowed)
 							return
 						}
 					}
